@@ -19,7 +19,14 @@ def main():
         rows = [[None] * 4 for _ in range(4)]
         for (c, r), v in {(0, 0): 1, (1, 0): 2, (0, 1): 3, (1, 1): 'x', (2, 2): 2.5}.items():
             rows[r][c] = v
-        rows[3][3] = req['formula']
+        rows[3][3] = req.get('formula')
+        if 'chain' in req:       # a running total along one row / down one column: {"chain": [direction, length]}
+            from openpyxl.utils import get_column_letter
+            direction, n = req['chain']
+            if direction == 'row':
+                rows = [[1] + ['=%s1+1' % get_column_letter(c) for c in range(1, n)]]
+            else:
+                rows = [[1]] + [['=A%d+1' % r] for r in range(1, n)]
         d = tempfile.mkdtemp(prefix='e2p_c06_')
         out = {}
         try:
